@@ -4,10 +4,19 @@ import TunnoxModel.Gen.Packet
 open Tunnox.PredPrelude
 namespace Gen
 
+namespace Skel
+def handleConnection : List String := ["defer b.cleanupConnection", "b.initializeConnection", "b.connectionReadLoop"]
+end Skel
+
 def HandlePacket_route (packetType : Nat) : String :=
   if ((packet.Type.IsJsonCommand packetType) || (packet.Type.IsCommandResp packetType)) then "handleCommandPacket" else
   if ((packetType &&& 0x3F) == packet.Handshake) then "handleHandshake" else
   if ((packetType &&& 0x3F) == packet.TunnelOpen) then "handleTunnelOpen" else
   if (packet.Type.IsHeartbeat packetType) then "handleHeartbeat" else
   "default"
+namespace Cond
+def connectionReadLoop : List String := ["b.checkAndHandleStreamMode(state)", "shouldReturn", "shouldContinue", "b.handlePacketAndCheckModeSwitch(state, pkt)"]
+def readPacketWithTimeout : List String := ["err != nil", "b.isTimeoutError(err)", "err != io.EOF"]
+end Cond
+
 end Gen
